@@ -102,6 +102,11 @@ impl<'b, 'tx> Cursor<'b, 'tx> {
         match self.stack.last() {
             Some(e) => {
                 let n = b.page_node(e.id);
+                // Once iteration has run past the end of a multi-level bucket the cursor
+                // rests on a branch node, which holds no data.
+                if !n.leaf() {
+                    return None;
+                }
                 n.val(e.index).map(|data| data.into())
             }
             None => None,
